@@ -257,7 +257,7 @@ def _apply_loop_contracts(src, ed, loops, blk, canary):
             else:
                 raise LiftError(f'template: bad proof placement {meta}')
         elif at == 'fn_start':
-            ed.insert(meta['_pos'], '\n' + body, 'proof')
+            pass  # handled by the caller (needs the body-open position)
 
 
 def _body_rewrites(src, ed, lo, hi, loops, blk, log):
@@ -432,7 +432,11 @@ def assemble(template_path, canary=False):
             segs.append(Seg(val, file='template:' + os.path.basename(template_path), line=0))
         elif kind == 'include':
             p = os.path.join(VERIF, 'spec', val)
+            modname = os.path.splitext(os.path.basename(val))[0]
+            segs.append(Seg(f'pub mod {modname} {{\n#[allow(unused_imports)] use super::*;\n#[allow(unused_imports)] use vstd::prelude::*;\n'
+                            '#[allow(unused_imports)] use vstd::std_specs::iter::IteratorSpec;\n', tag='include'))
             segs.append(Seg(open(p, encoding='utf-8').read() + '\n', file='spec/' + val, line=1))
+            segs.append(Seg(f'}}\n#[allow(unused_imports)] pub use {modname}::*;\n', tag='include'))
             meta['includes'].append('spec/' + val)
         else:
             if canary and val.kind in ('item', 'tail', 'loop') and val.args.get('canary', '1') != '0':
